@@ -66,6 +66,8 @@ def gen_case(d, family='small', enzymes=None, n_small=(1, 5), ref_kw=None, alt=T
     kw = dict(n_genes=(1, 1), max_tx=1, p_nf=0.0)
     if family == 'fusion':
         kw = dict(n_genes=(2, 2), max_tx=1, p_nf=0.0)
+    if family == 'fuscirc':
+        kw = dict(n_genes=(2, 2), max_tx=1, p_nf=0.0, n_exons=(2, 3))
     if family == 'as':
         kw = dict(n_genes=(1, 1), max_tx=1, p_nf=0.0, n_exons=(2, 4))
     if family == 'multi':
@@ -78,6 +80,20 @@ def gen_case(d, family='small', enzymes=None, n_small=(1, 5), ref_kw=None, alt=T
     if family in ('small', 'multi'):
         for tid in tids:
             if family == 'multi' and d.chance(0.25):
+                continue
+            t = ref.tx(tid)
+            n = len(ref.tx_seq(tid))
+            if t.get('cds') and 'mRNA_end_NF' not in t.get('tags', []) and \
+                    n - t['cds'][1] >= 15 and d.chance(0.2):
+                # stop-codon geometry: a record on one of the three stop-codon bases (stop
+                # lost) plus records further downstream in the read-through region
+                e = t['cds'][1]
+                records += vargen.gen_small(d, ref, tid, 1, spread=0, center=e + d.randint(0, 2),
+                    kinds=['snv', 'snv', 'snv', 'del', 'ins'])
+                records += vargen.gen_small(d, ref, tid, d.randint(1, 3), spread=8,
+                    center=d.randint(e + 6, n - 3), kinds=['snv', 'snv', 'ins', 'del'])
+                if d.chance(0.4):
+                    records += vargen.gen_small(d, ref, tid, d.randint(1, 2), spread=spread)
                 continue
             records += vargen.gen_small(d, ref, tid, d.randint(*n_small), spread=spread)
     elif family == 'as':
@@ -92,8 +108,28 @@ def gen_case(d, family='small', enzymes=None, n_small=(1, 5), ref_kw=None, alt=T
         f = vargen.gen_fusion(d, ref, dtx, atx)
         if f:
             records.append(f)
+            if d.chance(0.25):
+                # a second fusion of the same donor breakpoint with another acceptor
+                # breakpoint (parsers emit one record per donor / acceptor pair)
+                f2 = vargen.gen_fusion(d, ref, dtx, atx)
+                if f2 and f2['apos'] != f['apos']:
+                    f2['dpos'] = f['dpos']
+                    f2['id'] = f"FUSION-{dtx}:{f2['dpos']}-{atx}:{f2['apos']}"
+                    records.append(f2)
         if d.chance(0.5):
             records += vargen.gen_small(d, ref, dtx, d.randint(1, 3))
+    elif family == 'fuscirc':
+        # one transcript that is fusion donor, circRNA host and carries small variants: the
+        # three processing units share the transcript's record series
+        dtx, atx = tids[0], tids[1]
+        if d.chance(0.5):
+            dtx, atx = atx, dtx
+        for _ in range(d.choice([1, 1, 2])):
+            f = vargen.gen_fusion(d, ref, dtx, atx, intronic_p=0.15)
+            if f and all(f['id'] != r.get('id') for r in records):
+                records.append(f)
+        records.append(vargen.gen_circ(d, ref, dtx))
+        records += vargen.gen_small(d, ref, dtx, d.randint(1, 3), spread=40)
     elif family == 'circ':
         tid = tids[0]
         records.append(vargen.gen_circ(d, ref, tid))
@@ -433,6 +469,15 @@ def classify_mislabel(case, ref:Ref, seq, e):
                         if not all(d_ in by_id for d_ in diff):
                             continue
                         if all(by_id[d_].re <= refpos for d_ in diff):
+                            # calibrated on the unchanged tree (21 000 cases): an upstream
+                            # record is only ever *omitted* when a frameshifting / MNV / AS
+                            # record is involved; haplotypes of plain SNVs are at most
+                            # over-stated (both alleles of one position listed)
+                            allcls = {x.cls for x in W} | {by_id[n].cls for n in named
+                                if n in by_id}
+                            omitted = [d_ for d_ in diff if d_ not in named]
+                            if allcls <= {'SNV'} and omitted:
+                                continue
                             return 'C03-upstream-attribution'
                         others = {x.rid for x in W} | {n for n in named if n in by_id}
                         crowded = True
